@@ -10,6 +10,10 @@ E3 = "procsim (process-level simulator: strace syscall fault / kill injection)"
 
 # id -> (engine, category, technique, level text, level note, design ref)
 CHECKS = {
+ "C12": (E1, "exploration",
+   "deterministic simulation of an on-path adversary and a foreign conforming publisher: single in-flight mutations of validly signed documents (version-only pins, so signatures are the only defence), role substitution under a shared key, documents with unknown members signed over an independent canonical-JSON encoder",
+   "Per run one role type (root, timestamp, snapshot, targets, delegated) gets a foreign document with unknown members at one struct-like level (names with space, '!', quote, backslash, non-ASCII, prefix pairs) and exactly one in-flight change: none, re-ordering, whitespace, junk signature, scalar change / member insert / delete / duplicate anywhere, _type rewrite, timestamp<->snapshot swap under a key authorised for both. Oracle: whatever is accepted exposes content whose reference canonical form equals what was signed; untampered and benignly changed documents are not refused for signature or parse reasons; swapped roles are refused.",
+   "Trusts the harness's reference canonical JSON (no shared code with olpc-cjson); NFC-unstable strings are not generated; unknown members inside key objects are C13's domain.", "DESIGN.md §5 C12"),
  "C07": (E1, "exploration",
    "deterministic simulation of a Byzantine delegatee: seeded delegation trees with out-of-scope and shadowing entries, checked against a reference pre-order lookup through load + read_target",
    "Seeded trees (depth <=3, fan-out <=3) whose roles list entries outside their delegated paths or shadow names of earlier roles; path sets from literals, '*', '?', hash prefixes; names needing resolution. Oracle: reference pre-order lookup with pruning; load must fail iff some listed name has no authorised entry; for every name read_target must accept exactly the content signed by the reference entry. Wildcard/separator-ambiguous cases are not judged.",
